@@ -161,12 +161,12 @@ static inline uint32_t lg_word_at(unsigned r, uint64_t byteoff)
 // block [base, base+bytes) becomes region r; its raw (symbolic) bytes are assumed to contain no live mark
 extern "C" __attribute__((noinline)) void lg_register(unsigned r, void* base, uint64_t bytes)
 {
-    vf_assert(bytes <= uint64_t(LG_SLOTS) * 4 && bytes % 4 == 0, "harness: the region fits the census (LG_SLOTS words)");
+    vf_assert(bytes <= uint64_t(LG_SLOTS) * 4, "harness: the region fits the census (LG_SLOTS words)");
     vf_led.base[r] = (unsigned char*)base;
     vf_led.bytes[r] = bytes;
     vf_led.off[r] = 0; vf_led.esz[r] = 0; vf_led.nslot[r] = 0;
     for (unsigned i = 0; i < LG_SLOTS; i++)
-        if (uint64_t(i) * 4 < bytes) vf_assume(!lg_is_mark(lg_word_at(r, uint64_t(i) * 4)));
+        if (uint64_t(i) * 4 + 4 <= bytes) vf_assume(!lg_is_mark(lg_word_at(r, uint64_t(i) * 4))); // whole words only (a capacity-0 vector is 1 byte)
 }
 // where elements of the owner in region r can live: first slot at byte offset off, esz bytes apart (told right after
 // registration, from layout constants of the kernel; lg_expect insists that the elements it is told about are there)
